@@ -41,9 +41,11 @@ CONSTANTS
   LitRetype = FALSE
   DepKinds = {}
   Edits = {}
+  TrustCachedID = FALSE
+  PrintReadsTyp = FALSE
   Observers = {"PrintModule", "PrintFunc", "PrintBlock", "QueryType", "QueryIdent", "QueryOperands", "QuerySuccs"}
   EmitFile = "transitions.ndjson"
 VIEW View
-INVARIANTS TypeOK NumberingCorrect PrintTotalOnParsed AssignIdempotent ObserverTransparent PrintTwiceSame PrintFuncTwiceSame PrintBlockTwiceSame PrintFuncIsPart
+INVARIANTS TypeOK NumberingCorrect PrintTotalOnParsed AssignIdempotent ObserverTransparent PrintTwiceSame PrintFuncTwiceSame PrintBlockTwiceSame PrintFuncIsPart ObserverOrderFree
 PROPERTIES ObserverTransparentStep
 CHECK_DEADLOCK FALSE
